@@ -12,8 +12,9 @@ import traceback
 from . import lean
 
 VERIF = lean.VERIF
-EVIDENCE_DIR = os.path.join(VERIF, "evidence")
-REPLAY_DIR = os.path.join(VERIF, "replays")
+# mutant self-tests (tools/mutant.sh) redirect both so that a run against a mutated copy never overwrites the evidence
+EVIDENCE_DIR = os.environ.get("VERIF_EVIDENCE_DIR") or os.path.join(VERIF, "evidence")
+REPLAY_DIR = os.environ.get("VERIF_REPLAY_DIR") or os.path.join(VERIF, "replays")
 FINDINGS_FILE = os.path.join(VERIF, "known_findings.json")
 
 TRUSTED_BASE = [
